@@ -214,9 +214,20 @@ func runC09(c *Ctx) {
 
 	// ---------- R4 edges
 	c.Rule("R4", "TAB", "edge classes: (receiver→capabilities), (capabilities|processor→processor) chained in slice order, (last→fan-out), (fan-out→exporter)", 1)
+	// the edge builder is found by effect: the method of Graph with ≥3 edge-creation sites. A site is a NewEdge
+	// call or – when the endpoints of that call are bare parameters of a helper (`g.connect(from, to)`) – a call of
+	// the helper; the endpoints are then the helper's arguments (robust_A5.go).
+	isNewEdge := func(ci ssa.CallInstruction) bool { f := calleeOf(ci); return f != nil && f.Name() == "NewEdge" }
+	edgeSites := map[*ssa.Function][]a5Site{}
+	for _, s := range a5SitesThroughWrappers(a5Index(p, gpk), isNewEdge, func(ci ssa.CallInstruction) []ssa.Value {
+		a := ci.Common().Args
+		return []ssa.Value{a[len(a)-2], a[len(a)-1]}
+	}) {
+		edgeSites[s.Fn] = append(edgeSites[s.Fn], s)
+	}
 	var ce *ssa.Function
 	for _, fn := range p.AllSrcFuncs(gpk) {
-		if fn.Parent() == nil && recvNamedOfFn(fn) == graphT && len(calls(fn, func(ci ssa.CallInstruction) bool { f := calleeOf(ci); return f != nil && f.Name() == "NewEdge" })) >= 3 {
+		if fn.Parent() == nil && recvNamedOfFn(fn) == graphT && len(edgeSites[fn]) >= 3 {
 			ce = fn
 		}
 	}
@@ -241,9 +252,8 @@ func runC09(c *Ctx) {
 			return strings.Join(sortedKeys(set), "|")
 		}
 		var got []string
-		for _, ci := range calls(ce, func(ci ssa.CallInstruction) bool { f := calleeOf(ci); return f != nil && f.Name() == "NewEdge" }) {
-			a := ci.Common().Args
-			got = append(got, classOf(a[len(a)-2])+" -> "+classOf(a[len(a)-1]))
+		for _, s := range edgeSites[ce] {
+			got = append(got, classOf(s.Args[0])+" -> "+classOf(s.Args[1]))
 		}
 		sort.Strings(got)
 		wantE := []string{"capabilitiesNode|processors -> fanOutNode", "capabilitiesNode|processors -> processors", "fanOutNode -> exporters", "receivers -> capabilitiesNode"}
@@ -252,29 +262,47 @@ func runC09(c *Ctx) {
 
 	// ---------- R5 reject before build
 	c.Rule("R5", "GATE", "components are built only after a successful topo.Sort (its failure returns the cycle error); an unsupported connector use returns an error before that connector's nodes are created; Build tests createNodes' error before building components", 3)
+	// anchors by effect, seen through closures and helpers (robust_A5.go): bc = the method of Graph that sorts
+	// topologically and from which buildComponent is called (possibly inside a range-over-func body or a helper);
+	// build = the function that calls bc and a function from which createConnector is reached; cn = that function.
 	var bc, cn, build *ssa.Function
+	isTopoSort := func(ci ssa.CallInstruction) bool {
+		f := calleeOf(ci)
+		return f != nil && f.FullName() == "gonum.org/v1/gonum/graph/topo.Sort"
+	}
+	isBuildComponent := func(ci ssa.CallInstruction) bool { f := calleeOf(ci); return f != nil && f.Name() == "buildComponent" }
+	createConnectorFn := mustFn(p, gpk, graphT, "createConnector")
+	isCreateConnector := func(ci ssa.CallInstruction) bool {
+		return createConnectorFn != nil && staticCalleeFn(ci) == createConnectorFn
+	}
 	for _, fn := range p.AllSrcFuncs(gpk) {
 		if fn.Parent() != nil {
 			continue
 		}
-		if recvNamedOfFn(fn) == graphT && len(callsNamed(fn, func(f *types.Func) bool { return f.FullName() == "gonum.org/v1/gonum/graph/topo.Sort" })) == 1 && len(callsNamed(fn, func(f *types.Func) bool { return f.Name() == "buildComponent" })) > 0 {
+		if recvNamedOfFn(fn) == graphT && len(calls(fn, isTopoSort)) == 1 && len(a5ReachingSites(p, fn, isBuildComponent, 2)) > 0 {
 			bc = fn
-		}
-		if recvNamedOfFn(fn) == graphT && len(callsNamed(fn, func(f *types.Func) bool { return f.Name() == "createConnector" })) > 0 {
-			cn = fn
 		}
 	}
 	for _, fn := range p.AllSrcFuncs(gpk) {
-		if fn.Parent() == nil && bc != nil && cn != nil && len(callsTo(fn, funcObj(bc))) > 0 && len(callsTo(fn, funcObj(cn))) > 0 {
-			build = fn
+		if fn.Parent() != nil || bc == nil || fn == bc || len(callsTo(fn, funcObj(bc))) == 0 {
+			continue
+		}
+		for _, ci := range calls(fn, func(ci ssa.CallInstruction) bool { return true }) {
+			g := staticCalleeFn(ci)
+			if g == nil || g == bc || g == createConnectorFn || g.Pkg != fn.Pkg || g.Blocks == nil {
+				continue
+			}
+			if len(a5ReachingSites(p, g, isCreateConnector, 2)) > 0 {
+				build, cn = fn, g
+			}
 		}
 	}
 	if bc == nil || cn == nil || build == nil {
 		c.Anchor(fmt.Sprintf("buildComponents/createNodes/Build (found %v %v %v)", bc != nil, cn != nil, build != nil))
 	} else {
-		srt := callsNamed(bc, func(f *types.Func) bool { return f.FullName() == "gonum.org/v1/gonum/graph/topo.Sort" })[0]
+		srt := calls(bc, isTopoSort)[0]
 		okAll := true
-		for _, b := range callsNamed(bc, func(f *types.Func) bool { return f.Name() == "buildComponent" }) {
+		for _, b := range a5ReachingSites(p, bc, isBuildComponent, 2) {
 			if !errGuardOn(b.Block(), srt, true) {
 				okAll = false
 			}
@@ -290,7 +318,7 @@ func runC09(c *Ctx) {
 		// returns under `!supportedUse` dominate... structural: each return of a non-nil fmt.Errorf inside the connector
 		// loop is not reachable from createConnector within one iteration, and createConnector is not reachable
 		// without passing the blocks that test supportedUse.
-		ccalls := callsTo(cn, funcObj(mustFn(p, gpk, graphT, "createConnector")))
+		ccalls := a5ReachingSites(p, cn, isCreateConnector, 2)
 		nChecks := 0
 		okBefore := true
 		allInstrs(cn, func(in ssa.Instruction) {
@@ -335,7 +363,7 @@ func runC09(c *Ctx) {
 	// ---------- R6 next consumers
 	c.Rule("R6", "PROV", "processors are built with exactly one next consumer (element 0 of the next-consumer list), receivers and connectors with the whole list", 3)
 	if bc != nil {
-		for _, b := range callsNamed(bc, func(f *types.Func) bool { return f.Name() == "buildComponent" }) {
+		for _, b := range a5DeepCalls(bc, func(ci ssa.CallInstruction) bool { f := calleeOf(ci); return f != nil && f.Name() == "buildComponent" }) {
 			rn := recvNamed(calleeOf(b))
 			if rn == nil {
 				continue
@@ -408,33 +436,88 @@ func runC09(c *Ctx) {
 				}
 			}
 		})
+		// provenance is followed across helpers (a parameter of an unexported helper stands for the arguments at its
+		// call sites), and the call sites are looked for in everything reachable from cn inside the package, so that
+		// the node-creation loop may live in a helper and the stability check behind a wrapper (robust_A5.go)
+		ix := a5Index(p, gpk)
 		sideOf := func(v ssa.Value) string {
 			set := map[string]bool{}
-			for w := range backSliceMaps(v) {
+			for w := range a5BackSliceIP(ix, v) {
 				if r, ok := role[w]; ok {
 					set[r] = true
 				}
 			}
 			return strings.Join(sortedKeys(set), "")
 		}
-		n := 0
-		for _, ci := range calls(cn, func(ci ssa.CallInstruction) bool {
-			f := calleeOf(ci)
-			return f != nil && (f.Name() == "connectorStability" || f.Name() == "createConnector")
-		}) {
-			args := ci.Common().Args
-			var a1, a2 ssa.Value
-			if calleeOf(ci).Name() == "connectorStability" {
-				a1, a2 = args[1], args[2]
-			} else {
-				a1, a2 = args[1], args[2]
+		within := a5ReachableInPkg(cn, 3)
+		n, nStab, nCreate := 0, 0, 0
+		var stabFn *ssa.Function
+		for _, fn := range ix.funcs {
+			if !within[rootFn(fn)] {
+				continue
 			}
-			n++
-			s1, s2 := sideOf(a1), sideOf(a2)
-			c.Check(s1 == "F" && s2 == "T", fmt.Sprintf("from/to argument order of %s #%d", calleeOf(ci).Name(), n), p.Pos(ci.Pos()), "first from exporter-side uses, second from receiver-side uses", fmt.Sprintf("first argument derives from %q uses, second from %q uses (F=as exporter, T=as receiver): the connector's supported signal pair is checked/instantiated in the wrong direction, so legs of asymmetric connectors are silently dropped", s1, s2))
+			for _, ci := range calls(fn, func(ci ssa.CallInstruction) bool {
+				f := calleeOf(ci)
+				return f != nil && (f.Name() == "connectorStability" || f.Name() == "createConnector")
+			}) {
+				args := ci.Common().Args
+				a1, a2 := args[1], args[2]
+				n++
+				if calleeOf(ci).Name() == "connectorStability" {
+					nStab++
+					stabFn = staticCalleeFn(ci)
+				} else {
+					nCreate++
+				}
+				s1, s2 := sideOf(a1), sideOf(a2)
+				c.Check(s1 == "F" && s2 == "T", fmt.Sprintf("from/to argument order of %s #%d", calleeOf(ci).Name(), n), p.Pos(ci.Pos()), "first from exporter-side uses, second from receiver-side uses", fmt.Sprintf("first argument derives from %q uses, second from %q uses (F=as exporter, T=as receiver): the connector's supported signal pair is checked/instantiated in the wrong direction, so legs of asymmetric connectors are silently dropped", s1, s2))
+			}
 		}
-		if n < 3 || len(role) != 2 {
-			c.Undecided("connector from/to call sites", "-", fmt.Sprintf("%d call sites, %d usage maps", n, len(role)))
+		if nStab < 1 || nCreate < 1 || len(role) != 2 {
+			c.Undecided("connector from/to call sites", "-", fmt.Sprintf("%d stability checks, %d node creations, %d usage maps", nStab, nCreate, len(role)))
+		}
+		// "supported" means: the declared stability level is not Undefined – the only constant the level may be
+		// compared with when deciding whether a pair of pipelines gets a connector node (a wrapper that returns the
+		// level unchanged is looked through)
+		if stabFn != nil {
+			okCmp, nCmp := true, 0
+			where := "-"
+			var visit func(v ssa.Value, d int)
+			visit = func(v ssa.Value, d int) {
+				ks, _ := a5ComparedConsts(v)
+				for _, k := range ks {
+					nCmp++
+					if k != 0 {
+						okCmp = false
+						if in, ok := v.(ssa.Instruction); ok {
+							where = p.Pos(in.Pos())
+						}
+					}
+				}
+				if v.Referrers() == nil || d == 0 {
+					return
+				}
+				for _, r := range *v.Referrers() {
+					// the level handed on unchanged: returned by a wrapper
+					if ret, ok := r.(*ssa.Return); ok {
+						if cs, exact := ix.exactCallers(ret.Parent()); exact {
+							for _, cc := range cs {
+								if cv, ok := cc.(ssa.Value); ok {
+									visit(cv, d-1)
+								}
+							}
+						}
+					}
+				}
+			}
+			for _, fn := range ix.funcs {
+				for _, ci := range calls(fn, func(ci ssa.CallInstruction) bool { return staticCalleeFn(ci) == stabFn }) {
+					if cv, ok := ci.(ssa.Value); ok && within[rootFn(fn)] {
+						visit(cv, 2)
+					}
+				}
+			}
+			c.Check(okCmp && nCmp >= 1, "a connector pair is supported exactly when its stability level is not Undefined", where, fmt.Sprintf("%d comparisons, all with StabilityLevelUndefined", nCmp), fmt.Sprintf("the declared stability level is compared with a level other than Undefined (%d comparisons): pairs declared at another level (e.g. Deprecated) are treated as unsupported and get no connector node", nCmp))
 		}
 	}
 	runRouterReadOnly(c, "R12")
